@@ -286,6 +286,11 @@ class Runner:
             ctx.count("returned")
         except impl.ALLOWED_EXC as e:
             ctx.count("raised_" + type(e).__name__)
+            if isinstance(e, jsonschema.ValidationError) and not entry.startswith(("validate", "module_validate")):
+                # is_valid reports by its return value, iter_errors by yielding: a ValidationError RAISED out of them is not
+                # "reporting ValidationError(s)"
+                ctx.violation("exception", {"draft": draft, "schema": schema, "instance": inst, "entry": entry},
+                              "%s raised out of %s: %s" % (type(e).__name__, entry, str(e.message)[:120]))
         except StepBudgetExceeded:
             ctx.violation("hang", {"draft": draft, "schema": schema, "instance": inst, "entry": entry},
                           "more than %d PY_START events in repo code" % BUDGET)
